@@ -276,6 +276,19 @@ theorem edgeMesh_closed (st : State ℝ) (hr : 0 < st.edgeRadius) (a b : Pt3 ℝ
     have := hv f hf
     simpa [Dim3.Polyhedron.translate, Dim3.Polyhedron.applyMatrix, Pt3s.translate, Mt4.applyMatrix] using this
 
+/-- … and it satisfies the oracle's full `closedOriented` predicate (every directed edge in exactly
+one face, its reverse in exactly one other): C04 `cylinder_closedOriented` -/
+theorem edgeMesh_closedOriented (st : State ℝ) (hr : 0 < st.edgeRadius) (a b : Pt3 ℝ) (s : Scad ℝ)
+    (h : edgeMesh st a b = some s) :
+    ∃ pts faces, s = Scad.node (.polyhedron pts faces 1) [] ∧ Spec.closedOriented pts.length faces = true := by
+  unfold edgeMesh at h
+  simp only [Option.bind_eq_bind, Option.pure_def] at h
+  obtain ⟨c, hc, h⟩ := bind_some h
+  injection h with h; subst h
+  refine ⟨_, _, rfl, ?_⟩
+  have := C04.cylinder_closedOriented _ _ hr _ c hc
+  simpa [Dim3.Polyhedron.translate, Dim3.Polyhedron.applyMatrix, Pt3s.translate, Mt4.applyMatrix] using this
+
 /-! ### where an edge cylinder is put -/
 /-- `look_at_matrix_lh` has no translation part in the slots `apply_matrix` reads -/
 theorem lookAt_w (eye center up : Pt3 ℝ) :
